@@ -27,6 +27,7 @@ import (
 	"sort"
 	"strconv"
 	"strings"
+	"syscall"
 	"time"
 
 	"github.com/php-any/origami/data"
@@ -337,6 +338,22 @@ func carriers(x *sched.Exec) string {
 }
 
 var budgetSec = 120
+
+// Guards for the generated families (thousands of scenarios): a changed tree can multiply the
+// choice points per request, so each family scenario is capped in executions and each worker
+// process in CPU seconds spent (load independent); both are reported as "not exhaustive", never
+// silent, and neither is an oracle. On the unchanged tree the largest family scenario has 1032
+// executions and a worker uses < 60 CPU-seconds (quick).
+var famMaxExecs = 3000
+var famCPUSec = 150.0
+
+func cpuSeconds() float64 {
+	var ru syscall.Rusage
+	if syscall.Getrusage(syscall.RUSAGE_SELF, &ru) != nil {
+		return 0
+	}
+	return float64(ru.Utime.Sec+ru.Stime.Sec) + float64(ru.Utime.Usec+ru.Stime.Usec)/1e6
+}
 var debug = os.Getenv("C11_DEBUG") != ""
 
 // a shard is a batch of scenarios (the generated families have thousands of small ones)
@@ -353,6 +370,10 @@ func exploreOne(w *pool.W, sc scenario) {
 		return
 	}
 	t := findT(sc.Tmpl)
+	if t.Family != "" && cpuSeconds() > famCPUSec {
+		w.Emit(rec{Kind: "done", Scenario: sc, Stop: "worker-cpu-budget"})
+		return
+	}
 	want := make([]resp, sc.N)
 	var solos []string
 	for k := range want {
@@ -368,6 +389,9 @@ func exploreOne(w *pool.W, sc scenario) {
 	outcomes := map[string]bool{}
 	seen := map[string]bool{}
 	cfg := &sched.Config{Name: sc.String(), Bound: sc.Bound, Setup: setup, Deadline: time.Now().Add(time.Duration(budgetSec) * time.Second), GateOnly: sc.GateOnly, MaxSteps: 5000}
+	if t.Family != "" {
+		cfg.MaxExecs = famMaxExecs
+	}
 	emit := func(x *sched.Exec, key, clause, detail string) {
 		if seen[key] {
 			return
@@ -466,15 +490,17 @@ func scenariosFor(t tmpl, quick bool) []scenario {
 			add(3, 1, false)
 		}
 	case t.Family == "routes":
-		// 2-4 gates per request; request 3 goes to group /a again
+		// 2-4 gates per request; request 3 goes to group /a again. PB 4 is all but unbounded
+		// on the unchanged tree (<= 70 interleavings); a real bound keeps the run polynomial on a
+		// tree that takes a lock per encoded scalar (locks are choice points at this granularity).
 		if quick {
-			add(2, -1, true)
+			add(2, 4, true)
 			if !t.Light {
 				add(3, 1, true)
 				add(2, 1, false)
 			}
 		} else {
-			add(2, -1, true)
+			add(2, 6, true)
 			add(3, 2, true)
 			add(2, 2, false)
 			if !t.Light {
@@ -540,6 +566,9 @@ func main() {
 	if pool.IsWorker() {
 		if v := os.Getenv("C11_BUDGET"); v != "" {
 			budgetSec, _ = strconv.Atoi(v)
+		}
+		if budgetSec > 120 { // thorough
+			famMaxExecs, famCPUSec = 30000, 1500
 		}
 		pool.Serve(map[string]pool.Handler{"explore": explore})
 	}
@@ -607,7 +636,7 @@ func main() {
 		}
 	}
 	var execs int64
-	complete, stopped, outcomes := 0, 0, 0
+	complete, stopped, skipped, outcomes := 0, 0, 0, 0
 	per := map[string]any{}
 	type famStat struct {
 		Scenarios, Complete int
@@ -644,6 +673,8 @@ func main() {
 			}
 			if r.Complete {
 				complete++
+			} else if r.Stop == "worker-cpu-budget" {
+				skipped++
 			} else if r.Execs > 0 {
 				stopped++
 				c.NotExhaustive(fmt.Sprintf("scenario %s stopped (%s) after %d executions", r.Scenario, r.Stop, r.Execs))
@@ -695,6 +726,10 @@ func main() {
 	c.Set("scenarios", nsc)
 	c.Set("scenarios_complete", complete)
 	c.Set("scenarios_stopped_by_deadline", stopped)
+	c.Set("family_scenarios_skipped_worker_cpu_budget", skipped)
+	if skipped > 0 {
+		c.NotExhaustive(fmt.Sprintf("%d family scenarios not run: worker CPU budget used up (a tree with far more choice points per request than the unchanged one)", skipped))
+	}
 	c.Set("per_scenario", per)
 	c.Set("per_family", fam)
 	c.Set("family_templates_failing", func() map[string]int {
